@@ -44,6 +44,27 @@ theorem C10_sdkMsg_admit_implies_rightful (r : Request) (h : admitSdkMsg r = tru
   simp only [admitSdkMsg, Bool.and_eq_true, beq_iff_eq] at h
   exact ⟨h.1, h.2⟩
 
+/-- task results take effect only for the signer of the transaction — in EVERY phase of the two-phase
+commit, whatever else the payload satisfies: the stored record that changes is the signer's own -/
+theorem C10_task_result_only_signer (st : AuthState) (r : Request) (payloadOk : Bool)
+    (h : admitTaskResult st r payloadOk = true) :
+    actsFor .taskResult r = r.origin ∧ r.sig = .valid ∧ st.isOperator r.origin = true := by
+  simp only [admitTaskResult, Bool.and_eq_true, beq_iff_eq] at h
+  obtain ⟨⟨⟨⟨h1, h2⟩, h3⟩, h4⟩, _⟩ := h
+  have hs : r.subject = r.origin := by rw [← h3, h2]
+  exact ⟨hs, h1, by rw [← hs]; exact h4⟩
+
+/-- stated per phase: a submission naming another operator is rejected in phase one, in phase two and for
+any other stage value, even with an otherwise perfectly admissible payload (replayed phase-one signature,
+open window) -/
+theorem C10_task_result_foreign_signer_rejected (st : AuthState) (r : Request) (payloadOk : Bool)
+    (h : r.subject ≠ r.origin) : ∀ ph : Phase, admitTaskResult st { r with phase := ph } payloadOk = false := by
+  intro ph
+  by_cases h2 : r.arg0 = r.origin
+  · have : ¬ r.arg0 = r.subject := by intro h3; exact h (by rw [← h3, h2])
+    simp [admitTaskResult, this]
+  · simp [admitTaskResult, h2]
+
 /-- parameter changes on mainnet chain ids only by the governance authority, signed by it -/
 theorem C10_params_only_authority_on_mainnet (st : AuthState) (r : Request) (hm : st.mainnet = true)
     (h : admitUpdateParams st r = true) : r.arg0 = st.authority ∧ r.origin = st.authority ∧ r.sig = .valid := by
@@ -90,6 +111,18 @@ theorem C10_avsOpt_admit_binds_avs_partial (st : AuthState) (r : Request) (h : a
   simp only [admitAvsOpt, Bool.and_eq_true] at h
   exact ⟨h.2, h.1⟩
 
+/-- challenges "require a listed owner" in the property's words; the code consults no owner list (F-10d) -/
+def C10_challenge_full : Prop :=
+  ∀ (st : AuthState) (r : Request) (p : Bool), admitChallenge st r p = true → r.arg0 ∈ st.avsOwners r.callerAddress
+
+theorem C10_challenge_full_fails : ¬ C10_challenge_full := by
+  intro h
+  have := h exState { callerAddress := 50, origin := 50, arg0 := 61, sig := .valid } true (by decide)
+  exact absurd this (by decide)
+
+/-- what holds for a challenge: it is bound to the calling contract's own address -/
+theorem C10_challenge_binds_caller_partial (r : Request) : actsFor .challenge r = r.callerAddress := rfl
+
 def C10_registerBLS_full : Prop :=
   ∀ (st : AuthState) (r : Request) (p k : Bool), admitRegisterBLS st r p k = true → actsFor .registerBLSKey r = r.origin
 
@@ -105,6 +138,9 @@ example : admitManageAVS exState { callerAddress := 50, origin := 61, arg0 := 61
 example : admitUpdateParams exState { callerAddress := 0, origin := 99, arg0 := 99, sig := .valid } = true := by decide
 example : admitUpdateParams exState { callerAddress := 0, origin := 7, arg0 := 7, sig := .valid } = false := by decide
 example : admitSdkMsg { callerAddress := 0, origin := 7, arg0 := 7, sig := .forged } = false := by decide
+example : admitTaskResult exState { callerAddress := 0, origin := 20, arg0 := 20, sig := .valid, subject := 20, phase := .two } true = true := by decide
+example : admitTaskResult exState { callerAddress := 0, origin := 7, arg0 := 7, sig := .valid, subject := 20, phase := .two } true = false := by decide
+example : admitTaskResult exState { callerAddress := 0, origin := 7, arg0 := 7, sig := .valid, subject := 20, phase := .one } true = false := by decide
 example : admitOraclePrice exState { callerAddress := 0, origin := 30, arg0 := 30, sig := .valid } = true := by decide
 example : admitOraclePrice exState { callerAddress := 0, origin := 66, arg0 := 30, sig := .forged } = false := by decide
 
